@@ -36,6 +36,11 @@ def run(ck):
     # the same through the time-boundary flow: RunUntil(t) calls followed by Run
     c04.run_traces(ck, "serial-gated-rununtil", "ParTrace_strict.cfg", dict(engine="serial", gated=True, policy="random", pauses=2, run_until=True,
                                                                            given=given[:30] if q else given[:300], programs=6 if q else 60, max_events=30))
+    # overlapping Pause calls from two goroutines
+    c04.run_traces(ck, "serial-gated-double", "ParTrace_strict.cfg", dict(engine="serial", gated=True, policy="random", pauses=2, double=True,
+                                                                         given=given[:30] if q else given[:300], programs=6 if q else 60, max_events=30))
+    c04.run_traces(ck, "parallel-gated-double", "ParTrace_parallel.cfg", dict(engine="parallel", procs_cycle=True, gated=True, policy="random", pauses=2, double=True,
+                                                                             given=given[:30] if q else given[:300], programs=6 if q else 60, max_events=30))
     # parallel engine, strict pause
     c04.run_traces(ck, "parallel-gated", "ParTrace_parallel.cfg", dict(engine="parallel", procs_cycle=True, gated=True, policy="random", pauses=2,
                                                                       given=given, programs=10 if q else 100, max_events=30))
